@@ -213,6 +213,16 @@ func convertTo(mappings map[string]any, typ reflect.Type) (any, error) {
 func assignOne(destValue reflect.Value, taken any, to string) (reflect.Value, error) {
 	if len(to) == 0 { // assign to output directly
 		toSet := reflect.ValueOf(taken)
+		if !toSet.IsValid() {
+			// a nil value is the zero value of a destination type that can be nil
+			switch destValue.Kind() {
+			case reflect.Map, reflect.Slice, reflect.Ptr, reflect.Interface:
+				destValue.Set(reflect.Zero(destValue.Type()))
+				return destValue, nil
+			default:
+				return destValue, fmt.Errorf("mapping entire value from nil to type=%v, which cannot be nil", destValue.Type())
+			}
+		}
 		if !toSet.Type().AssignableTo(destValue.Type()) {
 			return destValue, fmt.Errorf("mapping entire value has a mismatched type. from=%v, to=%v", toSet.Type(), destValue.Type())
 		}
@@ -609,6 +619,11 @@ func streamFieldMap(mappings []*FieldMapping) func(streamReader) streamReader {
 }
 
 func takeOne(inputValue reflect.Value, inputType reflect.Type, from string) (taken any, takenType reflect.Type, err error) {
+	// a nil interface or nil pointer on the source path can only be detected at request time
+	if !inputValue.IsValid() {
+		return nil, nil, &errInterfaceNotValidForFieldMapping{interfaceType: inputType}
+	}
+
 	var f reflect.Value
 	switch inputValue.Kind() {
 	case reflect.Map:
@@ -620,10 +635,20 @@ func takeOne(inputValue reflect.Value, inputType reflect.Type, from string) (tak
 		return f.Interface(), f.Type(), nil
 	case reflect.Ptr, reflect.Interface:
 		inputValue = inputValue.Elem()
+		if !inputValue.IsValid() {
+			return nil, nil, &errInterfaceNotValidForFieldMapping{interfaceType: inputType}
+		}
 		fallthrough
 	case reflect.Struct:
 		f, err = checkAndExtractFromField(from, inputValue)
 		if err != nil {
+			if inputType.Kind() == reflect.Interface {
+				// the struct was only known at request time: a request time error, not a programming error
+				return nil, nil, fmt.Errorf("%v: %w", err, &errInterfaceNotValidForFieldMapping{
+					interfaceType: inputType,
+					actualType:    inputValue.Type(),
+				})
+			}
 			return nil, nil, err
 		}
 
